@@ -19,6 +19,8 @@ import Proofs.SemaphoreCaller
 import Proofs.SemaphoreSysLive
 import Proofs.SemaphoreQueue
 import Proofs.SemaphoreRefresh
+import Proofs.SemaphoreStanding
+import Proofs.SemaphoreMJP
 import Gen.Facts
 
 namespace Props.C12
@@ -351,7 +353,7 @@ theorem maxjobs_le_limit (L : Int) (hL : 0 ≤ L) (ops : List MJOp) :
 
 /-- A job that is still queued/waiting is admitted as soon as there is room. -/
 theorem maxjobs_admits_when_room (s : MJ) (id : Nat) (st : MdState) (nb : Bool)
-    (hst : st.cancelled = false) (hroom : (s.running.length : Int) < s.limit) :
+    (hst : st.cancelled nb = false) (hroom : (s.running.length : Int) < s.limit) :
     (s.attempt id st nb).2 = some true ∧ id ∈ (s.attempt id st nb).1.running := by
   unfold MJ.attempt
   have hn : ¬ (s.limit ≤ (s.running.length : Int)) := by omega
@@ -363,15 +365,66 @@ theorem maxjobs_admits_when_room (s : MJ) (id : Nat) (st : MdState) (nb : Bool)
 
 /-- **Re-attaching after an mrp restart restores the count**: a fresh
 semaphore (`resetMaxJobs`) on which `reattach` (= one non-blocking `Acquire`)
-is called once for every job that is in flight on the cluster — distinct jobs,
-at most `limit` of them, which is what the previous incarnation guaranteed —
-holds exactly those jobs afterwards, so new submissions wait for them. -/
-theorem reattach_restores_count (L : Int) (ids : List Nat) (hnd : ids.Nodup)
-    (hlen : (ids.length : Int) ≤ L) :
-    ((MJ.init L).run (reattachOps ids)).running = ids := by
-  have := MJ.run_reattach L ids (MJ.init L) rfl (by simpa [MJ.init] using hnd)
-    (by simpa [MJ.init] using hlen)
+is called once for every job that is in flight on the cluster — in whichever of
+the two in-flight states, Queued or RUNNING, the restarted mrp reads from disk;
+distinct jobs, at most `limit` of them, which is what the previous incarnation
+guaranteed — holds exactly those jobs afterwards, so new submissions wait for
+them and `maxjobs_le_limit` continues to bound the jobs submitted at the same
+time across the restart.  (True of the code since the repair of audit finding
+C12-H7; the behaviour before it is `reattach_dropped_running_jobs_before_fix`.) -/
+theorem reattach_restores_count (L : Int) (ids : List (Nat × MdState))
+    (hst : ∀ p ∈ ids, p.2 = .queued ∨ p.2 = .running)
+    (hnd : (ids.map (·.1)).Nodup) (hlen : (ids.length : Int) ≤ L) :
+    ((MJ.init L).run (reattachOps ids)).running = ids.map (·.1) := by
+  have := MJ.run_reattach L ids (MJ.init L) rfl
+    (fun p hp => by rcases hst p hp with h | h <;> simp [h, MdState.inFlight])
+    (by simpa [MJ.init] using hnd) (by simpa [MJ.init] using hlen)
   simpa [MJ.init] using this.1
+
+/-- **The defect the repair removed** (negative witness for the OLD `Acquire`,
+reproduced on the unrepaired code by the cluster-restart stream: key
+`C12:cluster:over-maxjobs`).  `Acquire` refused every state other than
+Queued/Waiting also when re-attaching, so two jobs Running on the cluster (the
+normal in-flight state: the job has written `_log`) were not put back, the fresh
+semaphore stayed empty, and two MORE jobs were admitted: four jobs outstanding
+with `--maxjobs 2`. -/
+theorem reattach_dropped_running_jobs_before_fix :
+    ((MJ.init 2).runOld [(3, .running, true), (1, .running, true)]).running = [] ∧
+    ((MJ.init 2).runOld [(3, .running, true), (1, .running, true),
+        (7, .waiting, false), (8, .waiting, false)]).running = [7, 8] ∧
+    ((MJ.init 2).run [.attempt 3 .running true, .attempt 1 .running true,
+        .attempt 7 .waiting false, .attempt 8 .waiting false]).running = [3, 1] := by
+  decide
+
+/-! ### MaxJobsSemaphore with its callers: wake-ups (model Martian/SemaphoreMJP.lean)
+
+The callers blocked in `cond.Wait()` and the signalled ones are part of the
+state; `Signal` after `Release`, `Broadcast`/`Signal` in `FindDone`, `Broadcast`
+in `Clear`, and the deferred `Signal` on every return from inside `Acquire`. -/
+
+/-- **No parked caller is forgotten.**  After every sequence of Acquire calls
+(new or resumed after a wake-up, any metadata states), Release, FindDone and
+Clear: if a slot is free and some caller is parked in `cond.Wait()`, then some
+caller has been signalled and will look at the semaphore again. -/
+theorem maxjobs_no_parked_caller_is_forgotten (L : Int) (ops : List MJPOp) :
+    ((MJP.init L).run ops).NoLostWakeup :=
+  MJP.run_noLost _ ops (by intro _; left; rfl)
+
+/-- … so at quiescence (every signalled caller has run) nobody is parked while a
+slot is free — what the harness monitors on the real semaphore (`lost-wakeup`). -/
+theorem maxjobs_quiescent_room_nobody_parked (L : Int) (ops : List MJPOp)
+    (hq : ((MJP.init L).run ops).woken = []) (hroom : ((MJP.init L).run ops).room) :
+    ((MJP.init L).run ops).parked = [] := by
+  rcases maxjobs_no_parked_caller_is_forgotten L ops hroom with h | h
+  · exact h
+  · exact absurd hq h
+
+/-- the bound of `maxjobs_le_limit` for the model with callers (its `running`
+component evolves by `MJ.attempt` / `MJ.step`) -/
+theorem maxjobs_with_callers_le_limit (L : Int) (hL : 0 ≤ L) (ops : List MJPOp) :
+    (((MJP.init L).run ops).running.length : Int) ≤ L ∧ ((MJP.init L).run ops).running.Nodup := by
+  have := MJP.run_inv L hL ops (MJP.init L) (MJ.init_inv L hL)
+  exact ⟨this.le, this.nodup⟩
 
 /-! ## GetSystemReqs / Enqueue (after float → integer conversion) -/
 
@@ -476,11 +529,16 @@ theorem normalize_idempotent (c : LocalCfg) (hc : Sane c) (m1 v1 m2 v2 : Int) (r
         split at hz <;> omega
       · exact reqV_fix c v2 _ _ _ hz (fun h => absurd h hv) (fun _ => hb)
 
-/-- **Clamped requests fit every semaphore**, so by `local_every_schedule_finishes`
-every such job runs: with a vmem limit not below the memory limit and a process
-semaphore of at least `procsPerJob + maxCores`, the four amounts `Enqueue`
-acquires for ANY request (zero, adaptive, oversized) are non-negative and within
-the sizes `setupSemaphores` gives the semaphores. -/
+/-- **Clamped requests fit every semaphore — the configuration with all four
+semaphores** (vmem limit configured and not below the memory limit, process
+semaphore present); the general statement, including the default configuration
+without a vmem semaphore, is `normalized_amounts_fit_every_configuration`.
+`procs` is what the process semaphore has LEFT for jobs,
+`rlimMax - startingThreadCount` (mrp's own standing reservation is never
+released: `standing_reservation_is_a_smaller_semaphore`), not its `maxSize`:
+with `procsPerJob + maxCores` within that, the four amounts `Enqueue` acquires
+for ANY request (zero, adaptive, oversized) are non-negative and within the
+sizes, so by `local_every_schedule_finishes` every such job runs. -/
 theorem normalized_amounts_fit (c : LocalCfg) (hc : Sane c) (hv : 0 < c.maxVmemMB)
     (hvm : c.maxMemGB * 1024 ≤ c.maxVmemMB) (procs : Int) (hp : procsPerJob + c.maxCores ≤ procs)
     (mc vc : Int) (r : Req) :
@@ -505,29 +563,138 @@ theorem normalized_amounts_fit (c : LocalCfg) (hc : Sane c) (hv : 0 < c.maxVmemM
   · intro s
     rcases s with _ | _ | _ | _ | s <;> simp <;> omega
 
+/-- **Every configuration** (supersedes the four-semaphore statement above:
+no vmem semaphore — the default without `--localvmem` under an unlimited
+`ulimit -v` — and/or no process semaphore included).  For a sane configuration,
+with the vmem limit (if there is one) at least the memory limit, and with
+`procsPerJob + maxCores` within what the process rlimit leaves for jobs (if
+there is a process semaphore; `procsLeft = rlimMax - startingThreadCount`, see
+`standing_reservation_is_a_smaller_semaphore`): the amounts `Enqueue` acquires
+for ANY request are non-negative and fit the sizes of the semaphores that
+exist — so by `local_every_schedule_finishes` every such job runs. -/
+theorem normalized_amounts_fit_every_configuration (c : LocalCfg) (hc : Sane c)
+    (hvm : 0 < c.maxVmemMB → c.maxMemGB * 1024 ≤ c.maxVmemMB)
+    (procsLeft : Option Int) (hp : ∀ p, procsLeft = some p → procsPerJob + c.maxCores ≤ p)
+    (mc vc : Int) (r : Req) :
+    let a := acquireAmounts (normalize c mc vc r)
+    fitsSizes (localAmounts c procsLeft.isSome a) (localSizes c procsLeft) ∧
+    (∀ s, 0 ≤ (localAmounts c procsLeft.isSome a).getD s 0) := by
+  have h := clamp_le_limits c hc mc vc r
+  simp only at h
+  obtain ⟨h1, h2, h3, h4, h5⟩ := h
+  have e1 : Int.tdiv ((normalize c mc vc r).centi + 99) 100 = ((normalize c mc vc r).centi + 99) / 100 :=
+    Int.tdiv_eq_ediv_of_nonneg (by omega)
+  by_cases hv : 0 < c.maxVmemMB
+  · have hv3 := vmem_never_rejected_partial c hc mc vc r hv (hvm hv)
+    obtain ⟨h6, _⟩ := h5 hv
+    have e2 : Int.tdiv (normalize c mc vc r).vmemMb 1024 = (normalize c mc vc r).vmemMb / 1024 :=
+      Int.tdiv_eq_ediv_of_nonneg (by omega)
+    simp only [acquireAmounts] at hv3 ⊢
+    rw [e1, e2] at *
+    unfold procsPerJob at *
+    cases procsLeft with
+    | none =>
+      simp only [localAmounts, localSizes, hv, if_true, Option.isSome_none, Bool.false_eq_true, if_false,
+        Option.toList_none, List.append_nil, List.cons_append, List.nil_append]
+      constructor
+      · intro i m hi
+        rcases i with _ | _ | _ | i <;> simp at hi <;> subst hi <;> simp <;> omega
+      · intro s
+        rcases s with _ | _ | _ | s <;> simp <;> omega
+    | some p =>
+      have hp' := hp p rfl
+      simp only [localAmounts, localSizes, hv, if_true, Option.isSome_some, Option.toList_some,
+        List.cons_append, List.nil_append]
+      constructor
+      · intro i m hi
+        rcases i with _ | _ | _ | _ | i <;> simp at hi <;> subst hi <;> simp <;> omega
+      · intro s
+        rcases s with _ | _ | _ | _ | s <;> simp <;> omega
+  · simp only [acquireAmounts]
+    rw [e1]
+    unfold procsPerJob at *
+    cases procsLeft with
+    | none =>
+      simp only [localAmounts, localSizes, hv, if_false, Option.isSome_none, Bool.false_eq_true,
+        Option.toList_none, List.append_nil]
+      constructor
+      · intro i m hi
+        rcases i with _ | _ | i <;> simp at hi <;> subst hi <;> simp <;> omega
+      · intro s
+        rcases s with _ | _ | s <;> simp <;> omega
+    | some p =>
+      have hp' := hp p rfl
+      simp only [localAmounts, localSizes, hv, if_false, Option.isSome_some, Option.toList_some,
+        List.append_nil, List.cons_append, List.nil_append, if_true]
+      constructor
+      · intro i m hi
+        rcases i with _ | _ | _ | i <;> simp at hi <;> subst hi <;> simp <;> omega
+      · intro s
+        rcases s with _ | _ | _ | s <;> simp <;> omega
+
+/-! ## The process semaphore's standing reservation
+
+`setupSemaphores`: `procsSem = NewResourceSemaphore(rlimMax)`, then
+`procsSem.Acquire(startingThreadCount)` for mrp itself — never released. -/
+
+/-- **A standing reservation makes a smaller semaphore.**  For every sequence
+of `Acquire`/`Release` calls (the client protocol of `Enqueue`) in which no
+request lies strictly between the smaller size `m` and the real maximum `m + d`,
+and no release is "bad": the semaphore of size `m + d` with `d` reserved for
+ever grants, queues and refuses exactly like the semaphore of size `m` — same
+events, same queue, reservations larger by `d`.  So the never-stall theorems
+(`local_every_schedule_finishes`, `normalized_amounts_fit_every_configuration`)
+apply to the process semaphore with the size `rlimMax - startingThreadCount`. -/
+theorem standing_reservation_is_a_smaller_semaphore (s : Sem) (d : Int) (hd : 0 ≤ d)
+    (ops : List SemOp) (hops : ∀ op ∈ ops, op.plain s.max d)
+    (hp : hasPanic (run s ops).2 = false) :
+    run (s.shift d) ops = ((run s ops).1.shift d, (run s ops).2) :=
+  run_shift d hd ops s hops hp
+
+/-- **… except for a request between the two sizes** (negative witness; audit
+second-pass MEDIUM-1).  `ulimit -u 60`, one core: the job needs 15 + 1 = 16
+processes; 16 ≤ maxSize = 60, so `Acquire` does not refuse it, but only
+60 - 45 = 15 can ever be free: it is queued with `curSize = maxSize` and nobody
+left to release anything — it waits for ever (the smaller semaphore of size 15
+would have refused it).  The Go code only prints "The current process count
+limit … is low".  Replayed on the real code by the refresh workers (uid nobody,
+RLIMIT_NPROC lowered): documented limit, not a configured martian limit. -/
+theorem standing_reservation_parks_request_between_sizes :
+    let g := (grun (G.init 60) [.acquire 0 startingThreadCount, .updSize 60, .acquire 1 16]).1
+    g.sem.waiters = [(1, 16)] ∧ g.sem.cur = 60 ∧ g.sem.max = 60 ∧ g.held = [(0, 45)] ∧
+    (step (Sem.init 15) (.acquire 1 16)).2 = [.reject 1 16] ∧
+    ¬ (SemOp.acquire 1 16).plain 15 45 := by
+  refine ⟨by decide, by decide, by decide, by decide, by decide, ?_⟩
+  simp [SemOp.plain]
+
 /-! ## Regenerated obligations (jobmanager_local.go as it is now) -/
 
 /-- Every local job takes the semaphores in one and the same order
 (cores → memory → vmem → processes), the order `acquireAmounts` lists them in;
 fails on a tree whose `Enqueue` acquires in another order. -/
 theorem acquire_order_ok :
+    Gen.localAcquireOrder_extracted = true ∧
     Gen.localAcquireOrder = ["centcoreSem", "memMBSem", "vmemMBSem", "procsSem"] := by decide
 
 /-- the per-job process estimate constant used by the model is the one in the source -/
-theorem procs_per_job_ok : Gen.localProcsPerJob = procsPerJob := by decide
+theorem procs_per_job_ok :
+    Gen.localProcsPerJob_extracted = true ∧ Gen.localProcsPerJob = procsPerJob := by decide
 
 /-- `UpdateSize` has exactly one caller in martian: `setupSemaphores`, on the
 process semaphore, with `rlimCur` (≤ `rlimMax`, the size it was created with).
 The core, memory and vmem semaphores never see it. -/
 theorem updateSize_called_only_in_setup :
+    Gen.updateSizeCalls_extracted = true ∧
     Gen.updateSizeCalls = [("jobmanager_local.go", "setupSemaphores", "self.procsSem", "rlimCur(rlim)")] := by
   decide
 
 /-- the deferred releases of `Enqueue` are written in acquisition order, so they
 run in reverse acquisition order, as `Sys.act` releases -/
-theorem release_order_ok : Gen.localReleaseOrder = Gen.localAcquireOrder := by decide
+theorem release_order_ok :
+    Gen.localReleaseOrder_extracted = true ∧ Gen.localReleaseOrder = Gen.localAcquireOrder := by decide
 
-theorem starting_threads_ok : Gen.localStartingThreads = startingThreadCount := by decide
+theorem starting_threads_ok :
+    Gen.localStartingThreads_extracted = true ∧ Gen.localStartingThreads = startingThreadCount := by decide
 
 /-! ### The arithmetic the model mirrors, statement by statement
 
@@ -557,6 +724,13 @@ theorem skel_Acquire_ok :
      "return nil"] := by
   first | exact Or.inr rfl | exact Or.inl rfl
 
+/-- `Enqueue`: only the lines that mention a semaphore, an amount, `GetSystemReqs` or
+`executeLocal` are kept (filter `enqueueKeep`): the Acquire calls with their amount
+expressions and the Release calls, in source order.  The `if err != nil` / `return` lines of
+the refusal path and the `defer func` lines are NOT in this skeleton: that a refusal returns
+and gives back what is held, and that the releases are deferred, is pinned by
+`release_order_ok` (which looks inside the `defer` statements) and by the differential run of
+real jobs (refused jobs, reservations at every quiescent point). -/
 theorem skel_Enqueue_ok :
     Gen.c12Skel_Enqueue_extracted = false ∨ Gen.c12Skel_Enqueue =
     ["res := self.GetSystemReqs(resRequest)",
@@ -577,65 +751,21 @@ theorem skel_Enqueue_ok :
      "err := executeLocal(cmd, stdoutPath, stderrPath, localpreflight, metadata)"] := by
   first | exact Or.inr rfl | exact Or.inl rfl
 
-theorem skel_GetSystemReqs_ok :
-    Gen.c12Skel_GetSystemReqs_extracted = false ∨ Gen.c12Skel_GetSystemReqs =
-    ["result := *request",
-     "if result.Threads < 0",
-     "centiCores = int(math.Floor(result.Threads * 100))",
-     "else",
-     "centiCores = int(math.Ceil(result.Threads * 100))",
-     "if centiCores == 0",
-     "centiCores = self.jobSettings.ThreadsPerJob * 100",
-     "else",
-     "if centiCores < 0",
-     "centiCores = self.maxCores * 100",
-     "if centiCores > self.maxCores*100",
-     "result.Threads = float64(self.maxCores)",
-     "else",
-     "result.Threads = float64(centiCores) / 100",
-     "if result.MemGB < 0",
-     "memMb = int64(math.Floor(result.MemGB * 1024))",
-     "else",
-     "memMb = int64(math.Ceil(result.MemGB * 1024))",
-     "if memMb == 0",
-     "memMb = int64(self.jobSettings.MemGBPerJob) * 1024",
-     "else",
-     "if memMb < 0",
-     "avail := self.memMBSem.CurrentSize()",
-     "if avail < 1 || avail < -memMb",
-     "memMb = -memMb",
-     "else",
-     "memMb = avail",
-     "if result.VMemGB < 0",
-     "vmemMb = int64(math.Floor(result.VMemGB * 1024))",
-     "else",
-     "vmemMb = int64(math.Ceil(result.VMemGB * 1024))",
-     "if vmemMb == 0",
-     "vmemMb = memMb + int64(self.jobSettings.ExtraVmemGB)*1024",
-     "if vmemMb < 0",
-     "if self.vmemMBSem != nil",
-     "avail := self.vmemMBSem.CurrentSize()",
-     "if avail < 1 || avail < -vmemMb",
-     "vmemMb = -vmemMb",
-     "else",
-     "vmemMb = avail",
-     "if memMb > int64(self.maxMemGB)*1024",
-     "memMb = int64(self.maxMemGB) * 1024",
-     "if self.maxVmemMB > 0 && vmemMb > self.maxVmemMB",
-     "vmemMb = self.maxVmemMB",
-     "if vmemMb > 0 && vmemMb < memMb",
-     "vmemMb = memMb",
-     "result.MemGB = float64(memMb) / 1024",
-     "result.VMemGB = float64(vmemMb) / 1024",
-     "return result"] := by
-  first | exact Or.inr rfl | exact Or.inl rfl
+/- `skel_GetSystemReqs_ok` (the textual skeleton of `GetSystemReqs`) has been RETIRED: the
+integer logic of `GetSystemReqs` is now translated from the Go source on every run and tied by
+theorems (`Props/C12Tie.lean`: `tr_GSR_centi_eq_model`, `tr_GSR_mem_eq_model`,
+`tr_GSR_vmem_eq_model`, `tr_GSR_normalize`), which tolerate harmless rewrites the textual
+skeleton alarmed on; the differential GetSystemReqs vs `normalize` stays. -/
+
 
 theorem skel_MaxJobsAcquire_ok :
     Gen.c12Skel_MaxJobsAcquire_extracted = false ∨ Gen.c12Skel_MaxJobsAcquire =
     ["if metadata == nil",
      "return false",
+     "canceled := func",
      "st, ok := metadata.getState()",
-     "if ok && st != Queued && st != Waiting",
+     "return ok && st != Queued && st != Waiting && !(nonblocking && st == Running)",
+     "if canceled()",
      "return false",
      "defer self.cond.Signal()",
      "self.lock.Lock()",
@@ -643,8 +773,7 @@ theorem skel_MaxJobsAcquire_ok :
      "for len(self.running) >= self.Limit",
      "if self.Limit <= 0",
      "return false",
-     "st, ok := metadata.getState()",
-     "if ok && st != Queued && st != Waiting",
+     "if canceled()",
      "return false",
      "_, ok := self.running[metadata]",
      "if ok",
@@ -652,8 +781,7 @@ theorem skel_MaxJobsAcquire_ok :
      "if nonblocking",
      "return false",
      "self.cond.Wait()",
-     "st, ok := metadata.getState()",
-     "if ok && st != Queued && st != Waiting",
+     "if canceled()",
      "return false",
      "self.running[metadata] = struct{}{}",
      "return true"] := by
@@ -778,7 +906,7 @@ memory `UpdateFreeUsed(free, rss of mrp's CHILDREN — mrp itself excluded)`,
 vmem `UpdateActual(max - vmem of the children)`, cores `UpdateActual(idle cores)`,
 processes `UpdateFreeUsed(rlimit - user's processes, children + startingThreadCount)`. -/
 theorem skel_refreshResources_ok :
-    Gen.c12Skel_refreshResources_extracted = false ∨ Gen.c12Skel_refreshResources =
+    Gen.c12Skel_refreshResources_extracted = true ∧ Gen.c12Skel_refreshResources =
     ["err := sysMem.Get()",
      "usedMem, err := GetProcessTreeMemory(os.Getpid(), false, nil)",
      "memDiff := self.memMBSem.UpdateFreeUsed( (sysMem.ActualFree+1024*1024-1)/(1024*1024), (usedMem.Rss+1024*1024-1)/(1024*1024))",
@@ -791,7 +919,7 @@ theorem skel_refreshResources_ok :
      "rlim, err := GetMaxProcs()",
      "userProcs, err := GetUserProcessCount()",
      "self.procsSem.UpdateFreeUsed( rlimCur(rlim)-int64(userProcs), int64(usedMem.Procs)+startingThreadCount)"] := by
-  first | exact Or.inr rfl | exact Or.inl rfl
+  exact ⟨rfl, rfl⟩
 
 theorem skel_setupSemaphores_ok :
     Gen.c12Skel_setupSemaphores_extracted = false ∨ Gen.c12Skel_setupSemaphores =
@@ -949,22 +1077,21 @@ theorem own_usage_as_reservation_parks_limit_job :
 /-- regenerated: `refreshResources` samples the tree BELOW mrp
 (`GetProcessTreeMemory(os.Getpid(), false, nil)`) -/
 theorem refresh_excludes_own_usage :
-    Gen.refreshTreeIncludesParent = false ∧
-    (Gen.refreshTreeCall_extracted = false ∨ Gen.refreshTreeCall = ["os.Getpid()", "false", "nil"]) := by
-  refine ⟨by decide, ?_⟩
-  first | exact Or.inr rfl | exact Or.inl rfl
+    Gen.refreshTreeIncludesParent_extracted = true ∧ Gen.refreshTreeIncludesParent = false ∧
+    Gen.refreshTreeCall_extracted = true ∧ Gen.refreshTreeCall = ["os.Getpid()", "false", "nil"] := by
+  decide
 
 /-- regenerated: the argument expressions of the four `Update*` calls are the
 ones `memArgs` / `vmemArg` / `coresArg` / `procsArgs` model -/
 theorem refresh_update_args_ok :
-    Gen.refreshUpdateArgs_extracted = false ∨ Gen.refreshUpdateArgs =
+    Gen.refreshUpdateArgs_extracted = true ∧ Gen.refreshUpdateArgs =
     [("memMBSem", "UpdateFreeUsed", ["(sysMem.ActualFree + 1024*1024 - 1) / (1024 * 1024)",
         "(usedMem.Rss + 1024*1024 - 1) / (1024 * 1024)"]),
      ("vmemMBSem", "UpdateActual", ["self.maxVmemMB - usedMem.Vmem/(1024*1024)"]),
      ("centcoreSem", "UpdateActual", ["int64((float64(runtime.NumCPU()) - load.One + 0.9) * 100)"]),
      ("procsSem", "UpdateFreeUsed", ["rlimCur(rlim) - int64(userProcs)",
         "int64(usedMem.Procs) + startingThreadCount"])] := by
-  first | exact Or.inr rfl | exact Or.inl rfl
+  exact ⟨rfl, rfl⟩
 
 end Refresh
 
@@ -979,11 +1106,6 @@ it never writes anything) does not keep the pipestance waiting for ever. -/
 
 section QueueQuery
 open Martian
-
-/-- the jobs of the state after a run are the jobs of the state before, each followed through the run -/
-theorem run_follows_jobs (s : SemaphoreQueue.Q) (evs : List SemaphoreQueue.Ev) :
-    (SemaphoreQueue.run s evs).jobs = s.jobs.map (SemaphoreQueue.jobRun s evs) :=
-  SemaphoreQueue.run_jobs s evs
 
 /-- **Safety, one event.**  The only thing that fails a job "not queued or
 running" is a `refreshState` at a time `t` later than mark + grace period, where
@@ -1112,6 +1234,7 @@ theorem empty_answer_marks_every_queried_job :
 
 /-- the grace period of a configured job mode: `queue_query_grace_secs`, one hour when 0 -/
 theorem grace_default_ok :
+    Gen.queueGraceDefaultSecs_extracted = true ∧
     SemaphoreQueue.graceOfConfig 0 Gen.queueGraceDefaultSecs = 3600 ∧
     SemaphoreQueue.graceOfConfig 40 Gen.queueGraceDefaultSecs = 40 := by decide
 
@@ -1265,6 +1388,23 @@ example :
     NoLost s ∧
     (step s (Martian.SemaphoreRefresh.refreshMemOp o)).2 = [.grant 3 512, .ret 47955] := by decide
 
+/-- the default configuration (no vmem semaphore) with a process rlimit of 4096:
+three semaphores, an over-limit request is clamped into them -/
+example :
+    let c : LocalCfg := ⟨4, 8, 0, 1, 1, 0⟩
+    Sane c ∧ localSizes c (some (4096 - startingThreadCount)) = [400, 8192, 4051] ∧
+    localAmounts c true (acquireAmounts (normalize c 8192 0 ⟨700, 20000, 0⟩)) = [400, 8192, 19] := by decide
+
+/-- limit 1: caller 1 (job 7) gets the slot, callers 2 and 3 (jobs 8, 9) park; job 8 is cancelled
+meanwhile; Release signals caller 2, which returns false and — by the deferred Signal — hands the
+wake-up on to caller 3, which gets the slot: quiescent, nobody parked -/
+example :
+    let s := (MJP.init 1).run [.enter 1 7 .queued false, .enter 2 8 .queued false, .enter 3 9 .queued false,
+      .release 7, .resume 2 .other, .resume 3 .queued]
+    ((MJP.init 1).run [.enter 1 7 .queued false, .enter 2 8 .queued false, .enter 3 9 .queued false]).parked
+      = [(2, 8), (3, 9)] ∧
+    s.running = [9] ∧ s.parked = [] ∧ s.woken = [] := by decide
+
 /-- an update that grows the size by 1 wakes the waiter that now fits -/
 example : observedSize ⟨8192, 8091, 0, [(1, 8092)]⟩ (.updActual 8092) = some 8092 ∧
     NoLost ⟨8192, 8091, 0, [(1, 8092)]⟩ ∧
@@ -1328,13 +1468,40 @@ example : Sane ⟨4, 8, 16384, 1, 1, 3⟩ ∧
     normalize ⟨4, 8, 16384, 1, 1, 3⟩ 8192 16384 ⟨900, 99999, 99999⟩ = ⟨400, 8192, 16384⟩ := by decide
 
 /-- `reattach_restores_count`: two in-flight jobs, --maxjobs 2; a third job then has to wait -/
-example : ((MJ.init 2).run (reattachOps [3, 1])).running = [3, 1] ∧
-    (((MJ.init 2).run (reattachOps [3, 1])).attempt 0 .waiting false).2 = none := by decide
+example : ((MJ.init 2).run (reattachOps [(3, .running), (1, .queued)])).running = [3, 1] ∧
+    (((MJ.init 2).run (reattachOps [(3, .running), (1, .queued)])).attempt 0 .waiting false).2 = none := by decide
 
 /-- MaxJobs: the limit is reached and a further blocking attempt waits -/
 example :
     ((MJ.init 2).run [.attempt 1 .waiting false, .attempt 2 .queued false]).running = [1, 2] ∧
     (((MJ.init 2).run [.attempt 1 .waiting false, .attempt 2 .queued false]).attempt 3 .waiting false).2 = none := by
   decide
+
+/-! ### definitional unfoldings (documentation of the model, not guarantees) -/
+
+section Unfoldings
+open Martian
+
+/-- the jobs of the state after a run are the jobs of the state before, each followed through the run -/
+theorem run_follows_jobs (s : SemaphoreQueue.Q) (evs : List SemaphoreQueue.Ev) :
+    (SemaphoreQueue.run s evs).jobs = s.jobs.map (SemaphoreQueue.jobRun s evs) :=
+  SemaphoreQueue.run_jobs s evs
+
+/-- the process semaphore after `setupSemaphores` (with `UpdateSize(rlimCur)`) is
+the semaphore of size `rlimMax - 45` "shifted" by a standing reservation of 45 -/
+theorem procs_semaphore_after_setup (rmax rcur : Int) (h : startingThreadCount ≤ rmax) :
+    (run (Sem.init rmax) [.acquire 0 startingThreadCount, .updSize rcur]).1
+      = (⟨rmax - startingThreadCount, rcur - startingThreadCount, 0, []⟩ : Sem).shift startingThreadCount := by
+  have hfit : startingThreadCount ≤ rmax - 0 := by omega
+  simp only [run, step, Sem.init, hfit, List.isEmpty_nil, and_self, if_true, Sem.setCur, Sem.wake, runJobs,
+    Sem.shift]
+  split <;> simp <;> omega
+
+/-- the Boolean the driver evaluates on every real configuration (`C12.cfgsizes`)
+is the hypothesis `Sane` of the clamping theorems -/
+theorem saneB_iff_Sane (c : LocalCfg) : saneB c = true ↔ Sane c := by
+  simp [saneB, Sane, and_assoc]
+
+end Unfoldings
 
 end Props.C12
